@@ -37,8 +37,8 @@ CLAIMS = {
   nd=["the poller-side ordering of rw2r (Control before triggerWrite) against a concurrent second Flush", "liveness"]),
  'C09': dict(
   text="Deductive proof of callback ordering obligations on onConnect/onProcess/onDisconnect/onHup/closeCallback: OnConnect under the connecting token before any OnRequest, OnDisconnect at most once and only with state connected, close callbacks last under the sealed processing token.",
-  note="Proved: state machine transitions 0->1->2 monotone, OnDisconnect guarded by the 1->2 transition, hand-over to the task when the poller loses the connecting lock. Assumed: rely facts, user callback contracts.",
-  nd=["OnPrepare-before-registration (connection.init is trusted, not verified)", "'exactly once' for OnDisconnect on peer close needs the hand-over lemma (Appendix A)"]),
+  note="Proved: state machine transitions 0->1->2 monotone, OnDisconnect guarded by the 1->2 transition, hand-over to the task when the poller loses the connecting lock, OnPrepare completes before register() in onPrepare, connection.init establishes the connection invariant and never closes the caller's Conn. Assumed: rely facts, user callback contracts, a connection under construction is private to its goroutine.",
+  nd=["'exactly once' for OnDisconnect on peer close needs the hand-over lemma (Appendix A)", "callback order across goroutines beyond what the state word and the two locks sequence"]),
  'C10': dict(
   text="Deductive proof of the slot cache and of the poller's use of slots: alloc hands out only free-list slots (never owned or waiting ones), freeable waits for the do/done token, resets and queues, free() splices back only between batches; handler and Release release every token they take; lock invariants of both cache locks.",
   note="Proved: ghost slot state machine 0/1/2 with free-list shape invariant (ranks), freelist distinctness, Wait calls free() only when no fetched event is pending (ghost hFetched), handler never leaves a token taken, Release on a closed connection takes no token. Assumed: worldrely facts (token-held slots are not reset; owned slots stay registered), append-only slot table.",
@@ -53,7 +53,7 @@ CLAIMS = {
   nd=["peer-closed-with-buffered-data variants beyond waitRead's error kinds", "a close racing with an in-flight Reader call (C19)"]),
  'C13': dict(
   text="Deductive proof of ordering/pattern obligations of the server: onAccept registers the untrack callback before storing and stores before starting callbacks, and does neither for a connection that died in init; Shutdown detaches and closes the listener before sweeping, closes idle and counts busy connections, returns nil only right after a sweep; the EMFILE retry goroutine exits only through re-registering.",
-  note="Proved: ghost-flag ordering in onAccept/Close/Close$1/OnRead/OnRead$1. Assumed: sync.Map contract, Listener.Accept returns netpoll Conns, connection.init (trusted).",
+  note="Proved: ghost-flag ordering in onAccept/Close/Close$1/OnRead/OnRead$1. Assumed: sync.Map contract, Listener.Accept returns netpoll Conns, global invariants of the callback list and poller pool at entry of onAccept.",
   nd=["that the tracked set equals the set of open accepted connections (needs a model of sync.Map contents)", "Serve has returned / descriptors closed at Shutdown's nil", "deadline behaviour in wall-clock terms"]),
  'C14': dict(
   text="Deductive proof for the dial path: exactly one of connection/error (DialConnection: known finding), the deadline error reports Timeout(), WaitWrite deregisters before returning a context error, connect gives the wait slot back on every path, socket closes the descriptor on every dial error.",
@@ -61,7 +61,7 @@ CLAIMS = {
   nd=["'within its timeout plus slack' (time)", "usable in both directions after success", "dialTCP/DialUnix bodies (trusted thin contracts)"]),
  'C15': dict(
   text="Deductive proof with a ghost descriptor table (fdopen/closecnt) that each function under contract closes only descriptors it owns, exactly once, on success and error paths: netFD.Close, listener.Close, parseFD/ConvertListener, sysSocket, socket, openDefaultPoll, handler's poller exit, the connection finalizer.",
-  note="Proved: close preconditions (owned and open) at every syscall.Close/File.Close site under contract, all-or-nothing descriptor creation. Assumed: kernel/stdlib contracts (Socket, Accept, dup via File(), eventfd, epoll_create).",
+  note="Proved: close preconditions (owned and open) at every syscall.Close/File.Close site under contract, all-or-nothing descriptor creation, manager.Run stops every poller it started when a later open fails, connection.init never closes the caller's Conn. Assumed: kernel/stdlib contracts (Socket, Accept, dup via File(), eventfd, epoll_create).",
   nd=["whole-process 'no descriptor left' (needs a global ownership ledger across all objects)", "descriptors 0..2 are never closed by netFD.Close (observation)", "ConvertListener returns the listener together with a SetNonblock error (observation)"]),
  'C16': dict(
   text="Deductive proof that the io.Reader/io.Writer adapters (zcReader/zcWriter/ioReader/ioWriter) move exactly the bytes reported by the wrapped Read/Write between the stream and the LinkBuffer, for every short read/write and error.",
